@@ -114,6 +114,8 @@ class PathResolver(Resolver):
                 result = result.resolve(nobuiltin=True)
         except PathResolver.BadPath:
             log.error('path: "%s", not-found' % path)
+            # Do not return whatever a leading part of the path resolved to.
+            result = None
         return result
 
     def root(self, parts):
